@@ -60,6 +60,7 @@ def main():
     ap.add_argument("--tier", default="quick")
     ap.add_argument("--skip-tests", action="store_true")
     ap.add_argument("--all", action="store_true")
+    ap.add_argument("--part", default="", help="i/n: only every n-th entry starting at i (kill matrix in several runs)")
     ap.add_argument("--benign", action="store_true", help="property-preserving changes (mutants/benign_index.json): every check must stay quiet")
     a = ap.parse_args()
     if a.benign:
@@ -77,10 +78,15 @@ def main():
         print(json.dumps(res, indent=1))
         return 0 if all(c["exit"] == 1 for c in res["checks"].values()) else 1
     out = []
+    pi, pn = (int(x) for x in a.part.split("/")) if a.part else (0, 1)
+    counter = 0
     seeded = os.path.join(VERIF, "seeded")
     for d in sorted(os.listdir(seeded)) if os.path.isdir(seeded) else []:
         meta_p = os.path.join(seeded, d, "meta.json")
         if not os.path.exists(meta_p):
+            continue
+        counter += 1
+        if counter % pn != pi:
             continue
         meta = json.load(open(meta_p))
         res = run_one(os.path.join(seeded, d, "patch.diff"), False, meta["properties"], a.tier, a.skip_tests)
@@ -94,12 +100,15 @@ def main():
     idx_p = os.path.join(mdir, "index.json")
     if os.path.exists(idx_p):
         for m in json.load(open(idx_p)):
+            counter += 1
+            if counter % pn != pi:
+                continue
             res = run_one(os.path.join(mdir, m["patch"]), m.get("reverse", False), m["properties"], a.tier, a.skip_tests)
             res["id"] = m["patch"]
             res["owner_properties"] = m["properties"]
             out.append(res)
             print(m["patch"], res.get("tests_pass"), {p: c["exit"] for p, c in res["checks"].items()}, flush=True)
-    with open(os.path.join(VERIF, "mutants", "kill_matrix.json"), "w") as f:
+    with open(os.path.join(VERIF, "mutants", "kill_matrix.json" if not a.part else f"kill_matrix.part{pi}of{pn}.json"), "w") as f:
         json.dump(out, f, indent=1)
     missed = [(r["id"], p) for r in out for p, c in r["checks"].items() if c["exit"] != 1 and not r.get("documented_undetected")]
     print("documented as undetected:", [r["id"] for r in out if r.get("documented_undetected")])
